@@ -310,4 +310,87 @@ theorem decodeSeg_fuel : ∀ (f1 f2 : Nat) (data : Bytes) (offset level : Nat),
           apply ih <;> omega
         rw [e]
 
+/-! ### encodeName -/
+
+/-- map over the value of an outcome -/
+def omap {α β} (f : α → β) : Outcome α → Outcome β
+  | .ok a => .ok (f a)
+  | .err e => .err e | .panic => .panic | .hang => .hang
+
+theorem ofNat_mod256 (l : Nat) : UInt8.ofNat (((l : Int) % (256 : Int)).toNat) = UInt8.ofNat l := by
+  have : ((l : Int) % (256 : Int)).toNat = l % 256 := by omega
+  rw [this]
+  apply UInt8.toNat_inj.mp
+  simp
+
+theorem setI_nat (b : Bytes) (i : Int) (n : Nat) (v : UInt8) (h : i = n) : setI b i v = setIdx b n v := by
+  subst h
+  unfold setI setIdx
+  by_cases hl : n < b.length
+  · simp [hl]
+  · simp [hl]
+
+def encView (r : Bytes × Nat) : Bytes × Int := (r.1, (r.2 : Int))
+
+theorem encLoop_eq (offset : Nat) : ∀ (rest pre : Bytes) (fuel : Nat) (data : Bytes) (l : Nat),
+    l ≤ pre.length → rest.length < fuel →
+    genEncodeName_loop1 (pre ++ rest) (offset : Int) fuel data (l : Int) (pre.length : Int)
+      = omap encView (encodeNameLoop rest pre.length l data offset) := by
+  intro rest
+  induction rest with
+  | nil =>
+    intro pre fuel data l hl hf
+    match fuel, hf with
+    | f + 1, _ =>
+      rw [genEncodeName_loop1]
+      simp [encodeNameLoop, omap, encView]
+  | cons c rest ih =>
+    intro pre fuel data l hl hf
+    match fuel, hf with
+    | f + 1, hf =>
+      rw [genEncodeName_loop1, encodeNameLoop]
+      have hlt : (pre.length : Int) < ((pre ++ c :: rest).length : Int) := by simp; omega
+      simp only [hlt, if_true, PV.Lemmas.LoopGo.idxI_append_at, Outcome.bind_ok]
+      have hih := ih (pre ++ [c]) f
+      simp only [List.append_assoc, List.cons_append, List.nil_append, List.length_append, List.length_cons, List.length_nil] at hih
+      by_cases hc : c = 46
+      · subst hc
+        simp only [if_true, beq_self_eq_true]
+        rw [setI_nat data _ (offset + pre.length - l) _ (by omega), ofNat_mod256]
+        cases hs : setIdx data (offset + pre.length - l) (UInt8.ofNat l) with
+        | ok d =>
+          simp only [Outcome.bind_ok, Outcome.pure_eq]
+          have := hih d 0 (by omega) (by simp at hf; omega)
+          simpa using this
+        | err e => rfl
+        | panic => rfl
+        | hang => rfl
+      · have hc' : (c == 46) = false := by simpa using hc
+        simp only [hc, hc', if_false, Bool.false_eq_true]
+        rw [setI_nat data _ (offset + pre.length + 1) _ (by omega)]
+        cases hs : setIdx data (offset + pre.length + 1) c with
+        | ok d =>
+          simp only [Outcome.bind_ok, Outcome.pure_eq]
+          have := hih d (l + 1) (by omega) (by simp at hf; omega)
+          simpa using this
+        | err e => rfl
+        | panic => rfl
+        | hang => rfl
+
+theorem encLoop_l_le : ∀ (rest : Bytes) (i l : Nat) (data : Bytes) (offset : Nat) (d : Bytes) (l' : Nat),
+    l ≤ i → encodeNameLoop rest i l data offset = .ok (d, l') → l' ≤ i + rest.length := by
+  intro rest
+  induction rest with
+  | nil => intro i l data offset d l' h he; simp [encodeNameLoop] at he; simp; omega
+  | cons c rest ih =>
+    intro i l data offset d l' h he
+    rw [encodeNameLoop] at he
+    split at he
+    · split at he
+      · have := ih _ _ _ _ _ _ (by omega) he; simp; omega
+      all_goals cases he
+    · split at he
+      · have := ih _ _ _ _ _ _ (by omega) he; simp; omega
+      all_goals cases he
+
 end PV.Lemmas.DnsLoops
